@@ -129,6 +129,17 @@ func genProgram(seed int64, flavour string, drained bool, writers int, ntx int) 
 		p.Cfg.DataBlockByteThreshold = 4096
 		p.Keys = gen.Keys(r, profile, nk*writers)
 	}
+	hugeLen := 0
+	if flavour == "hugeval" {
+		// one transaction of 4-7 keys carries ONE very large value (just over 64 KiB or just over 1 MiB,
+		// both legal below the default 4 MiB memtable threshold): a wal record longer than any 16-bit
+		// length, read buffer or "sanity" limit of the recovery path. Only one, because every crash
+		// point ships the recovered state between processes.
+		minKeys, maxKeys = 4, 7
+		p.Cfg.MemtableByteThreshold = []int{30000, 4 << 20}[r.Intn(2)]
+		p.Cfg.DataBlockByteThreshold = 4096
+		hugeLen = []int{65536 + r.Intn(512), 1<<20 + r.Intn(4096)}[r.Intn(2)]
+	}
 	p.Txns = make([][]crashTxn, writers)
 	for w := 0; w < writers; w++ {
 		own := p.Keys[w*nk : (w+1)*nk] // disjoint key ownership: the per-key commit order is known
@@ -159,6 +170,10 @@ func genProgram(seed int64, flavour string, drained bool, writers int, ntx int) 
 				} else {
 					t.Writes[k] = fmt.Sprintf("w%d.t%d.%d-%s", w, i, j, strings.Repeat("p", valPad()))
 				}
+			}
+			if hugeLen > 0 && w == 0 && i == 1 {
+				k := window[r.Intn(len(window))]
+				t.Writes[k] = fmt.Sprintf("w%d.t%d.huge-%s", w, i, strings.Repeat("H", hugeLen))
 			}
 			p.Txns[w] = append(p.Txns[w], t)
 		}
@@ -1137,6 +1152,7 @@ func genCrash(focus, tier string, seed int64) []core.Case {
 			add(1, spec{"manykeys", 1, 1, 3, 8, 1})
 			add(1, spec{"multikey", 0, 1, 22, 8, 2})
 			add(1, spec{"multikey", 0, 2, 12, 8, 2})
+			add(1, spec{"hugeval", 1, 1, 4, 8, 1})
 		} else {
 			add(8, spec{"multikey", 1, 1, 40, 16, 1})
 			add(4, spec{"bigtxn", 1, 1, 30, 16, 1})
@@ -1145,6 +1161,7 @@ func genCrash(focus, tier string, seed int64) []core.Case {
 			add(3, spec{"manykeys", 1, 1, 8, 16, 1})
 			add(6, spec{"multikey", 0, 1, 40, 16, 1})
 			add(3, spec{"multikey", 0, 3, 20, 16, 1})
+			add(3, spec{"hugeval", 1, 1, 6, 16, 1})
 		}
 	case "C14":
 		if quick {
